@@ -113,6 +113,30 @@ claims.update({
    'Not decided: idempotence and parse-equivalence as relations over all programs; comment placement. Known finding F6: empty source reaches scanner.MustNewScanner -> log.Fatalln. tools/goctl is loaded with an alternate modfile and stand-ins for two imports missing from the offline module cache.',
    'DESIGN.md 3.C20'),
 })
+# round-3 additions to the claim texts (rules added after the third round of seeded changes)
+extra = {
+ 'C01': ' In every method guarding its work with a breaker held in a receiver field, all error-returning calls through the receiver\'s collaborators are made inside the guarded closure (R9).',
+ 'C02': ' An adaptiveShedder is only allocated behind the enabled outcome of enabled.True() (constructor or every caller); the latency added to the window is the elapsed milliseconds rounded up (R10).',
+ 'C03': ' Scripts reach the store through Script.Run/Eval (EVALSHA falling back to EVAL), never a bare EvalSha (R8).',
+ 'C04': ' engine.timeout (the server-level deadline) only grows outside the constructor and WriteTimeout is that value times a factor >= 1 (R6).',
+ 'C05': ' The dispatcher of a bounded worker pool never runs the user function itself outside a slot.',
+ 'C06': ' The retry chain of failed invalidations is closed: the first delay and every delay nextDelay hands out is again a key of its table (except the last), delays grow, timers are armed with the recorded delay (R8); every cache constructor forwards its option list (R9).',
+ 'C07': ' A ResourceManager owns a flight group created for it (R7); no closure handed to SingleFlight.Do/DoEx in the module returns a pointer-like parameter of its enclosing function - the shared value is made inside the flight (R8).',
+ 'C08': ' The request-side wrappers (httpx.ParseForm/ParseHeaders/ParseJsonBody/ParsePath, encoding.ParseHeaders) return on every path the verdict of the validating unmarshaller or the error of an earlier step; httpx.Parse accepts only after body and (for non-list targets) path, form and headers were parsed (R5b).',
+ 'C09': ' A middleware in front of the router leaves r.URL untouched on every path that passes the request on (R7).',
+ 'C10': ' WithWorkers sets the worker count on every path to the requested value when >= minWorkers, else minWorkers (R7).',
+ 'C11': ' Hand-off and confirmation channels are rendezvous channels (found and fixed F13); wrappers outside the package flush the executor directly, exactly once (R7b); the ticker a quitting flusher stops was created by that flusher (R8).',
+ 'C13': ' The kube OnUpdate drops an update of a well-typed pair only when the resource versions are equal (no ordering of opaque versions).',
+ 'C14': ' A body that ends its goroutine (runtime.Goexit) is rolled back (found and fixed F12; the path engine models the Goexit exit).',
+ 'C16': ' Queue constructor/Empty/size bookkeeping (found and fixed F11); Set.add/Remove/Contains touch data[i] on every path (R7).',
+ 'C17': ' FormatFloat precision -1 with the operand\'s bit size (R7); option functions customise per-call structs only (R8); fillMap sets the target before returning nil (R9).',
+ 'C18': ' The buffering writer does not retain the slice handed to Write; the decrypter set of a route group is a map made by that call (R8).',
+ 'C19': ' Every command the lock sends is a run of one of the two scripts (R5), dispatched with EVAL fallback (R6).',
+ 'C20': ' "Written" is decided by def-use flow into the line-aware Writer along executed calls (inspections and dropped call results do not count), including the children of list elements rendered piecewise; no function of ast concatenates two rendered nodes (R1c); every element read of the scanner\'s buffer is dominated by index < length (R7).',
+}
+for k, v in extra.items():
+    lvl, tech, text, note, ref = claims[k]
+    claims[k] = (lvl, tech, text + v, note, ref)
 not_built_reason = 'static rules designed (DESIGN.md section 3) but not built yet in this revision'
 
 checks, na = [], []
